@@ -735,7 +735,15 @@ func (e *Engine) dispatchClosed(fr *Frame, st *State, iv *IfaceSV, impls []*ssa.
 		bs := st.clone()
 		bs.pc = e.vc.define("pc", "Bool", and(st.pc, cond))
 		recvV := e.unbox(bs, rt, iv.Val)
+		// an arm of the case split may be infeasible where the dynamic type is already
+		// known: reachability (cover) obligations are not generated inside the arms
+		if len(impls) > 1 {
+			e.vc.noCover++
+		}
 		rv := e.callStatic(fr, bs, impl, append([]SV{recvV}, args...), resT, pos)
+		if len(impls) > 1 {
+			e.vc.noCover--
+		}
 		if bs.pc != "false" {
 			outs = append(outs, bs)
 			vals = append(vals, rv)
